@@ -1,9 +1,11 @@
+import XMT.Drv.C01
 import XMT.Drv.C10
 import XMT.Drv.C11
 import XMT.Drv.C17
 
 def dispatch (line : String) : String :=
   match (line.trimAscii.toString.splitOn " ").filter (· ≠ "") with
+  | "C01" :: args => XMT.Drv.C01.handle args
   | "C10" :: args => XMT.Drv.C10.handle args
   | "C11" :: args => XMT.Drv.C11.handle args
   | "C17" :: args => XMT.Drv.C17.handle args
